@@ -30,10 +30,11 @@ def numrec(st):
 
 def random_pool(rng, n):
     out = list(tg.ORDER_POOL)
+    n = max(n, len(out) + 8)
     while len(out) < n:
         r = rng.random()
         if r < 0.35:
-            base = rng.choice([2 ** 53, 2 ** 63, 2 ** 64, 10 ** 20, 3, 2 ** 100])
+            base = rng.choice([2 ** 53, 2 ** 63, 2 ** 63, 2 ** 64, 2 ** 62, 2 ** 31, 10 ** 20, 3, 2 ** 100])
             out.append(tg.c_int(rng.choice([1, -1]) * (base + rng.randint(-2, 2))))
         elif r < 0.6:
             x = tg.random_float(rng, finite=False)
@@ -42,6 +43,10 @@ def random_pool(rng, n):
             if x == x and abs(x) != float("inf") and rng.random() < 0.7:
                 from fractions import Fraction
                 f = Fraction(x)
+                if f.denominator == 1:
+                    # an integral float: the equal integer and its two neighbours (where rounding lies)
+                    out += [tg.c_int(f.numerator), tg.c_int(f.numerator - 1), tg.c_int(f.numerator + 1)]
+                    continue
                 out.append(tg.c_rat(f.numerator, f.denominator))
                 eps = Fraction(1, 10 ** 40)
                 g = f + rng.choice([eps, -eps])
